@@ -411,6 +411,13 @@ func runCli(c *mon.Case) {
 	} else {
 		k = genCli(c.R, c.Idx)
 	}
+	if k.ByName {
+		// `dedup --name` (deduplicate by NAME) is documented in the help text but not implemented (the flag variable is
+		// never read). The property speaks of distinct SEQUENCES only: what --name should do is a decision for the
+		// maintainers, not something this check may demand. Noted in DESIGN.md section 6; not driven.
+		c.Count("cli:dedup:name-flag-outside-the-property")
+		return
+	}
 	dir, err := os.MkdirTemp(cliDir, "case-")
 	if err != nil {
 		panic("harness: " + err.Error())
